@@ -662,7 +662,15 @@ func (u *Unit) builtin(fr *Frame, st *State, name string, args []Val, cc *ssa.Ca
 		u.assume(TTrue, And(Cmp(">=", l, TZero), Cmp("<=", l, BigLit("4611686018427387904"))))
 		return &Scalar{T: l, Typ: types.Typ[types.Int]}
 	case "append":
-		return &SliceV{T: u.fresh(SInt, "appended"), Typ: cc.Signature().Results().At(0).Type()}
+		r := u.fresh(SInt, "appended")
+		if len(args) == 2 {
+			_, l0, ok0 := u.lenTerm(args[0], cc.Args[0].Type())
+			_, l1, ok1 := u.lenTerm(args[1], cc.Args[1].Type())
+			if ok0 && ok1 {
+				u.assume(st.pc, Eq(App(SInt, "LenOf", r), Arith("+", l0, l1)))
+			}
+		}
+		return &SliceV{T: r, Typ: cc.Signature().Results().At(0).Type()}
 	case "close":
 		if s, ok := args[0].(*Scalar); ok {
 			if strings.HasPrefix(s.Origin, "chan:") {
